@@ -295,8 +295,39 @@ theorem C06_read_repair (cfg : Cfg) (hrr : cfg.readRepair = true) (r : Route) (c
               (if m = r.owner then Kind.prim else Kind.bak) dm k = _ :=
             fun m => repair_fold r dm k top.2.2 _ c hnodup m
           rw [← h]
-          change Option.map (fun x => x.ts) (((versions r C04.allReach c dm k now).foldl (repairStep r dm k top.2.2) c).copy r.owner Kind.prim dm k) = some top.2.2.ts ∧
-            ∀ b, b ∈ r.baks → Option.map (fun x => x.ts) (((versions r C04.allReach c dm k now).foldl (repairStep r dm k top.2.2) c).copy b Kind.bak dm k) = some top.2.2.ts
+          -- no gathered version comes from a previous owner: the loop is a fold of `repairStep`
+          have hnoprev : ∀ v ∈ versions r C04.allReach c dm k now, ¬ (v.2.1 = Kind.prim ∧ v.1 ≠ r.owner) := by
+            rw [hvs]
+            intro v hv
+            rcases List.mem_cons.mp hv with rfl | hv
+            · intro hc; exact hc.2 rfl
+            · simp only [List.mem_map] at hv
+              obtain ⟨m, _, rfl⟩ := hv
+              intro hc; cases hc.1
+          have hcongr : ∀ (f : Cluster → (Nat × Kind × Option Copy) → Cluster),
+              (∀ c0 v, ¬ (v.2.1 = Kind.prim ∧ v.1 ≠ r.owner) → f c0 v = repairStep r dm k top.2.2 c0 v) →
+              ∀ (vs : List (Nat × Kind × Option Copy)) (c0 : Cluster),
+              (∀ v ∈ vs, ¬ (v.2.1 = Kind.prim ∧ v.1 ≠ r.owner)) →
+              vs.foldl f c0 = vs.foldl (repairStep r dm k top.2.2) c0 := by
+            intro f hf vs
+            induction vs with
+            | nil => intro c0 _; rfl
+            | cons v vs ih =>
+              intro c0 hall
+              simp only [List.foldl_cons]
+              rw [hf c0 v (hall v List.mem_cons_self)]
+              exact ih _ (fun v' hv' => hall v' (List.mem_cons_of_mem _ hv'))
+          have key : ∀ f, (∀ c0 v, ¬ (v.2.1 = Kind.prim ∧ v.1 ≠ r.owner) → f c0 v = repairStep r dm k top.2.2 c0 v) →
+              (versions r C04.allReach c dm k now).foldl f c = (versions r C04.allReach c dm k now).foldl (repairStep r dm k top.2.2) c :=
+            fun f hf => hcongr f hf _ c hnoprev
+          suffices hsuff : Option.map (fun x => x.ts) (((versions r C04.allReach c dm k now).foldl (repairStep r dm k top.2.2) c).copy r.owner Kind.prim dm k) = some top.2.2.ts ∧
+              ∀ b, b ∈ r.baks → Option.map (fun x => x.ts) (((versions r C04.allReach c dm k now).foldl (repairStep r dm k top.2.2) c).copy b Kind.bak dm k) = some top.2.2.ts by
+            rw [key]
+            · exact hsuff
+            · intro c0 v hv
+              simp only [hv, if_false]
+              unfold repairStep
+              rfl
           constructor
           · have := hfold r.owner
             simp only [if_true] at this
